@@ -211,7 +211,16 @@ type model struct {
 	shift   int  // the Shift() currently set on lib
 	cosetOK bool // the coset needed by Evaluate in LagrangeCoset basis has been stored by ToLagrangeCoset
 	hist    []string
+	// spare: the coefficient slice still is the caller's buf[:n] with non-zero data in its spare capacity
+	spare     bool
+	initSpare int // spare capacity the initial object was built with (0: plain)
+	initForm  inst.IopForm
+	initLen   int
+	ops       []opRec  // operations applied so far (to rebuild an object with spare capacity, which Clone would lose)
+	tags      []string // class labels of the last operation
 }
+
+type opRec struct{ op, variant, maxLen int }
 
 func (m *model) desc() string {
 	return fmt.Sprintf("%s size=%d len=%d form=%s shift=%d cosetshift=%v history=%v p=%s",
@@ -250,7 +259,17 @@ func newModel(sh *shared, f inst.IopForm, n int) *model {
 	if n != sh.size {
 		lib.SetSize(sh.size)
 	}
-	return &model{shared: sh, lib: lib, form: f, n: n, hist: []string{"new:" + f.String() + fmt.Sprintf("/len%d", n)}}
+	return &model{shared: sh, lib: lib, form: f, n: n, initForm: f, initLen: n, hist: []string{"new:" + f.String() + fmt.Sprintf("/len%d", n)}}
+}
+
+// newModelSpare is newModel over buf[:n] of a buffer with `spare` further non-zero entries.
+func newModelSpare(sh *shared, f inst.IopForm, n, spare int) *model {
+	lib := sh.c.I.NewPolySpare(sh.entries(f, n), f, spare)
+	if n != sh.size {
+		lib.SetSize(sh.size)
+	}
+	return &model{shared: sh, lib: lib, form: f, n: n, initForm: f, initLen: n, initSpare: spare, spare: true,
+		hist: []string{"new:" + f.String() + fmt.Sprintf("/len%d+spare%d", n, spare)}}
 }
 
 func mod(a, n int) int {
@@ -465,13 +484,23 @@ func (m *model) apply(t TB, op, variant, maxLen int) bool {
 	n := m.n
 	switch op {
 	case opGrowCanonical, opGrowLagrange, opGrowCoset:
-		// growing by zero padding is meaningful only for coefficients in natural order
-		if m.form != (inst.IopForm{Basis: inst.Canonical, Layout: inst.Regular}) || 2*m.n > maxLen {
+		// A coefficient vector (either layout) does not refer to a domain, so it can be converted on any
+		// larger one. Lagrange / LagrangeCoset values are values ON a domain: converting them with a domain
+		// of another cardinality is passing the wrong domain (not generated; see the Note of the exhaustive test).
+		if m.form.Basis != inst.Canonical || 2*m.n > maxLen {
 			return false
 		}
 		n = 2 * m.n
 	}
 	d := m.c.dom(n, m.s)
+	m.tags = nil
+	if n != m.n {
+		m.tags = append(m.tags, "grow_from:"+m.form.String())
+		if m.spare && m.lib.Cap() >= n {
+			m.tags = append(m.tags, "grow_into_spare")
+		}
+	}
+	m.ops = append(m.ops, opRec{op, variant, maxLen})
 	m.hist = append(m.hist, name)
 	switch op {
 	case opToCanonical, opGrowCanonical:
@@ -506,6 +535,7 @@ func (m *model) apply(t TB, op, variant, maxLen int) bool {
 		// a deep copy is independent of its origin
 		old.Poison()
 		old.Shift(m.shift + 3)
+		m.spare = false
 	case opShallowClone:
 		old := m.lib
 		m.guard(t, name, func() { m.lib = old.ShallowClone() })
@@ -529,6 +559,7 @@ func (m *model) apply(t TB, op, variant, maxLen int) bool {
 		}
 		m.lib.Poison()
 		m.lib = back
+		m.spare = false
 	}
 	m.n = n
 	if op == opGrowCanonical {
@@ -542,10 +573,19 @@ func (m *model) apply(t TB, op, variant, maxLen int) bool {
 }
 
 // fork deep-copies the library object (through the library's Clone) and the mutable model part.
-func (m *model) fork() *model {
+func (m *model) fork(t TB) *model {
+	if m.initSpare > 0 {
+		// Clone would drop the spare capacity: rebuild the object and replay the operations
+		c := newModelSpare(m.shared, m.initForm, m.initLen, m.initSpare)
+		for _, o := range m.ops {
+			c.apply(t, o.op, o.variant, o.maxLen)
+		}
+		return c
+	}
 	c := *m
 	c.lib = m.lib.Clone()
 	c.hist = append([]string(nil), m.hist...)
+	c.ops = append([]opRec(nil), m.ops...)
 	return &c
 }
 
